@@ -15,30 +15,38 @@ def sh(cmd, **kw):
     return subprocess.run(cmd, shell=True, stdout=subprocess.PIPE, stderr=subprocess.STDOUT, **kw)
 
 def run(sid, units=None):
+    """The seeded change is applied to a scratch checkout of /repo's current HEAD (outside /repo and
+    /verif, removed afterwards) and the registered checks are pointed at it with VP_REPO; this is
+    `git -C /repo apply` + run + `git -C /repo checkout -- .` without disturbing builder agents that
+    commit fixes to /repo while the seeds are being run."""
     d = os.path.join(VERIF, "seeded", sid)
     meta = json.load(open(os.path.join(d, "meta.json")))
     props = meta["property"] if isinstance(meta["property"], list) else [meta["property"]]
-    # only the files the patch touches must be clean (builder agents may be preparing a fix elsewhere)
-    st = sh("git -C %s status --porcelain --untracked-files=no -- %s" % (REPO, " ".join(meta.get("files", ["."])))).stdout.decode().strip()
-    if st:
-        print("refusing: /repo has uncommitted changes:\n" + st); return 2
-    r = sh("git -C %s apply %s" % (REPO, os.path.join(d, "patch.diff")))
+    wt = "/tmp/seedwt_%d" % os.getpid()
+    sh("git -C %s worktree remove --force %s" % (REPO, wt))
+    r = sh("git -C %s worktree add --detach %s HEAD" % (REPO, wt))
     if r.returncode != 0:
-        print("patch does not apply:", r.stdout.decode()); return 2
-    res = {"id": sid, "property": props, "runs": [], "at": time.strftime("%Y-%m-%d %H:%M:%S")}
+        print("cannot create scratch worktree:", r.stdout.decode()); return 2
+    head = sh("git -C %s rev-parse --short HEAD" % wt).stdout.decode().strip()
+    res = {"id": sid, "property": props, "runs": [], "at": time.strftime("%Y-%m-%d %H:%M:%S"), "repo_head": head}
     try:
+        r = sh("git -C %s apply %s" % (wt, os.path.join(d, "patch.diff")))
+        if r.returncode != 0:
+            print("patch does not apply to /repo HEAD %s:" % head, r.stdout.decode()); return 2
+        env = dict(os.environ, VP_REPO=wt, VP_NO_EVIDENCE="1")
         for p in props:
             cmds = ["./check %s --unit %s" % (p, u) for u in units] if units else ["./check %s" % p]
             for c in cmds:
                 t0 = time.time()
-                o = sh(c, cwd=VERIF)
+                o = sh(c, cwd=VERIF, env=env)
                 out = o.stdout.decode(errors="replace")
                 viol = [l for l in out.splitlines() if l.startswith("VIOLATION") or l.startswith("FAILED OBLIGATION")]
                 res["runs"].append({"cmd": c, "exit": o.returncode, "secs": round(time.time() - t0, 1),
                                     "lines": viol[:12], "tail": out.splitlines()[-3:]})
                 print(c, "-> exit", o.returncode, viol[:3])
     finally:
-        sh("git -C %s apply -R %s" % (REPO, os.path.join(d, "patch.diff")))
+        sh("git -C %s worktree remove --force %s" % (REPO, wt))
+        sh("git -C %s worktree prune" % REPO)
     res["caught"] = any(r["exit"] == 1 for r in res["runs"])
     res["caught_by"] = sorted({l.split(":")[0].replace("FAILED OBLIGATION ", "") + ":" + l.split(":")[1].split(" --")[0]
                                for r in res["runs"] for l in r["lines"] if l.startswith("FAILED OBLIGATION")})
